@@ -236,8 +236,13 @@ def _run_harnesses_now(kc, names, work, log, extra_args, timeout, jobs, target):
             mc = re.search(r'\*\* (\d+) of (\d+) cover properties satisfied', b)
             if mc and mc.group(1) != mc.group(2):
                 st = 'failed'     # an unreachable cover = vacuous harness
+        if st == 'failed':
+            fcs_ = [x.strip() for x in re.findall(r'Failed Checks: (.*)', b)]
+            if fcs_ and all('unwinding assertion' in x for x in fcs_):
+                st = 'unknown'     # the harness's unwind bound does not cover the (changed) code: undecided, never an alarm
         tm = re.search(r'Verification Time: ([0-9.]+)s', b)
-        res[hn] = dict(status=st, time_s=float(tm.group(1)) if tm else None, output=b[-3000:], cached=False)
+        res[hn] = dict(status=st, time_s=float(tm.group(1)) if tm else None, output=b[-3000:], cached=False,
+                       failed_checks=[x.strip() for x in re.findall(r'Failed Checks: (.*)', b)][:12])
     # summary lines in -j mode: "Verification failed for - X" / "Complete - N successfully verified harnesses, M failures"
     for m in re.finditer(r'Verification failed for - ([A-Za-z0-9_:]+)', out):
         hn = m.group(1).split('::')[-1]
@@ -268,14 +273,14 @@ def run_for_property(prop, tier, work, log):
         for (name, rel, domain) in klayout.harness_table():
             if tier == 'thorough' or name not in slow:
                 sel.append((name, 'lib.rs', ['C18'], 'bounded', 'no-allocator build: ' + domain, 'quick', 2400))
-        return _run_sel(sel, work, log, extra_args=['--no-default-features'])
+        return _run_sel(sel, work, log, extra_args=['--no-default-features'], prop=prop)
     sel = [h for h in HARNESSES if (prop in h[2] or (h[3] == 'shimval' and prop in SHIM_PROPS)) and (h[5] == 'quick' or tier == 'thorough')]
     if tier == 'thorough' and prop in ('C01', 'C04', 'C10', 'C11', 'C12', 'C15'):
         # independent bounded cross-check of the Verus layout proofs: the real per-type parsers on one concrete length each
         import klayout
         for (name, rel, domain) in klayout.harness_table():
             sel.append((name, 'lib.rs', [prop], 'bounded', domain, 'thorough', 2400))
-    out = _run_sel(sel, work, log)
+    out = _run_sel(sel, work, log, prop=prop)
     if prop in ('C08', 'C01'):
         o2 = _run_sel(list(ALLOC_SHIM), work, log, extra_args=['--no-default-features', '--features', 'alloc'])
         out['shimval'] += o2['shimval']
@@ -283,7 +288,23 @@ def run_for_property(prop, tier, work, log):
     return out
 
 
-def _run_sel(sel, work, log, extra_args=()):
+def labels_concern(failed_checks, prop):
+    """the generated layout harnesses label every assert with the properties the field belongs to ("C10+C11:longitude"); a failed harness
+    concerns `prop` if one of its failed checks carries that label, or - for C01 / C18 - if any check failed at all (a panic, an overflow or
+    any field difference between configurations)"""
+    failed_checks = [l.strip().strip('"') for l in failed_checks]
+    lab = [l for l in failed_checks if re.match(r'C\d\d', l)]
+    if prop == 'C18':
+        return True
+    if prop == 'C01':
+        # totality: only a panic / overflow / out-of-bounds check counts, not a field that decodes to the wrong value
+        return any(not re.match(r'C\d\d', l) for l in failed_checks) or not failed_checks
+    if not lab:
+        return False
+    return any(prop in l.split(':')[0].split('+') for l in lab)
+
+
+def _run_sel(sel, work, log, extra_args=(), prop=None):
     out = dict(obligations=[], discharged=[], failures=[], undecided=[], bounded=[], backend=None, shimval=[])
     if not sel:
         return out
@@ -303,7 +324,12 @@ def _run_sel(sel, work, log, extra_args=()):
             entry = dict(obligation=ob[0], bound=domain, engine='kani/cbmc', status=r['status'])
             out['bounded'].append(entry)
             if r['status'] == 'failed':
-                out['failures'].append(dict(ob=ob[0], engine='kani', output=r['output'], tags=props))
+                fcs = r.get('failed_checks') or re.findall(r'Failed Checks: (.*)', r['output'])
+                if name.startswith('k_layout_') and prop and not labels_concern(fcs, prop):
+                    log('kani: %s fails, but only on fields of other properties (%s): not a finding of %s' % (name, '; '.join(fcs[:3]), prop))
+                    entry['status'] = 'failed on fields of other properties only'
+                else:
+                    out['failures'].append(dict(ob=ob[0], engine='kani', output=r['output'], tags=props))
             elif r['status'] != 'success':
                 out['undecided'].append('%s: %s' % (ob[0], r['status']))
             continue
@@ -328,14 +354,14 @@ def layout_fallback(relpaths, work, log):
     for (name, rel, domain) in klayout.harness_table():
         if rel not in relpaths:
             continue
-        res = run_harnesses([name], os.path.join(work, 'kfb'), log, timeout=1800, jobs=1, extra_args=['-Z', 'concrete-playback', '--concrete-playback=print'])
+        res = run_harnesses([name], os.path.join(work, 'kfb'), log, timeout=int(os.environ.get('VERIF_FALLBACK_TIMEOUT', '700')), jobs=1, extra_args=['-Z', 'concrete-playback', '--concrete-playback=print'])
         r = res[name]
         vals = None
         if r['status'] == 'failed':
             m = re.search(r'let concrete_vals: Vec<Vec<u8>> = vec!\[(.*?)\];', r['output'], re.S)
             if m:
                 vals = [int(x) for x in re.findall(r'vec!\[(\d+)\]', m.group(1))]
-        failed_checks = re.findall(r'Failed Checks: (.*)', r['output'])
+        failed_checks = r.get('failed_checks') or re.findall(r'Failed Checks: (.*)', r['output'])
         out[rel] = dict(harness=name, status=r['status'], bytes=vals, domain=domain, failed_checks=failed_checks[:5], output=r['output'][-2500:])
     return out
 
@@ -349,4 +375,4 @@ def concrete_playback(name, work, log, extra_args=()):
     m = re.search(r'let concrete_vals: Vec<Vec<u8>> = vec!\[(.*?)\];', r['output'], re.S)
     if m:
         vals = [[int(x) for x in re.findall(r'\d+', v)] for v in re.findall(r'vec!\[([^\]]*)\]', m.group(1))]
-    return vals, re.findall(r'Failed Checks: (.*)', r['output'])[:5]
+    return vals, (r.get('failed_checks') or re.findall(r'Failed Checks: (.*)', r['output']))[:5]
